@@ -8,7 +8,7 @@ for p in "$1"/*/patch.diff; do
   id=$(basename $(dirname $p))
   git -C $REPO apply $p 2>/dev/null || { echo "$id APPLY-FAILED"; continue; }
   for i in 01 02 03 04 05 06 07 08 09 10 11 12 13 14 15 16 17 18 19 20; do
-    ($bin -repo $REPO -property C$i -tier quick -evidence $T/ev_C$i.json -known /verif/known_findings.json > $T/out_C$i.txt 2>&1; echo $? > $T/code_C$i.txt) &
+    ($bin -repo $REPO -property C$i -tier quick -evidence $T/ev_C$i.json -known ${VERIF_KNOWN:-/verif/known_findings.json} > $T/out_C$i.txt 2>&1; echo $? > $T/code_C$i.txt) &
   done; wait
   git -C $REPO checkout -- . ; git -C $REPO clean -fdq -- client server >/dev/null 2>&1
   res=""
